@@ -13,7 +13,7 @@ META = dict(
 RULE = ("one execution = one JDF text pushed through parsec-ptgpp -E twice (+ gcc -fsyntax-only when accepted); states = distinct texts; transitions = tool invocations; "
         "distinct outcomes = distinct (exit status, normalised first diagnostic / compile verdict); non-trivial = texts at or over a limit, or mutated")
 
-GCC_FLAGS = ['-fsyntax-only', '-std=gnu11', '-O1', '-Wall', '-Wextra', '-Wno-unused', '-Wno-unused-parameter']
+GCC_FLAGS = ['-fsyntax-only', '-std=gnu11', '-w']
 
 
 def limits(build):
